@@ -169,7 +169,11 @@ def segmentation_sweep(ctx):
                             len(memo), code, "binary" if curt else "base64", size, type(ex).__name__, ex),
                             {"kind": "seg", "code": code, "auth": auth, "curt": curt, "size": size, "memo": memo, "signer": signer, "via": via})
                         continue
-                    if any(len(g) > max(size, base) for g in grams):
+                    if size == 1 and tx.size < base:
+                        ctx.violation("code %s: after switching to %s headers the gram size is %d, below the minimum %d of that encoding" % (
+                            code, "binary" if curt else "base64", tx.size, base),
+                            {"kind": "seg", "code": code, "auth": auth, "curt": curt, "size": size, "memo": memo, "signer": signer, "via": via})
+                    if any(len(g) > (tx.size if size == 1 else size) for g in grams):
                         ctx.violation("code %s %s size %d: a gram of %d bytes exceeds the gram size" % (
                             code, "binary" if curt else "base64", size, max(len(g) for g in grams)),
                             {"kind": "seg", "code": code, "auth": auth, "curt": curt, "size": size, "memo": memo, "signer": signer, "via": via})
